@@ -122,7 +122,7 @@ class RefractoryStepMixin(StepMixin):
     def refrac(self, value: float | None) -> None:
         if value is None:
             self.__derive_refrac = True
-            self.__refrac_time = self.__step_time
+            self.__refrac_time = self.dt
         else:
             self.__derive_refrac = False
             self.__refrac_time = argtest.gte("refrac", value, 0, float)
